@@ -73,6 +73,9 @@ FIXED = [
 NAMES = ["A", "B", "C", "D"]
 
 
+CONTINUATION = ["X9\t1", "Y9\t2", "Q7\tzz", "X9\t3"]
+
+
 def n_exhaustive(tier):
     return len(FIXED) * 4
 
@@ -405,6 +408,10 @@ def catalogue(gfapy, g, held):
     add("Gfa.to_gfa1", lambda: g.to_gfa1())
     add("Gfa.to_gfa2", lambda: g.to_gfa2())
     add("Gfa.custom_records_of_type", lambda: g.custom_records_of_type("X"))
+    # questions about record types the Gfa does not hold (yet)
+    add("Gfa.custom_records_of_type(absent)", lambda: g.custom_records_of_type("Y9"))
+    for d in ({"record_type": "Y9"}, {"record_type": "Q7", "name": "zz"}, {"record_type": "F"}, {"record_type": "U"}):
+        add("Gfa.select(absent type)", lambda d=d: g.select(dict(d)))
     add("Gfa.fragments_for_external", lambda: g.fragments_for_external("r"))
     for x in ["A", "B", "D", "e1", "l1", "p", "o", "u", "g", "zz", "nope", "*"]:
         add("Gfa.line(name)", lambda x=x: g.line(x))
@@ -732,6 +739,28 @@ def oracle(case):
             else:
                 name, thunk = C[b % len(C)]
             do(name, thunk)
+    # the same continuation applied to the queried Gfa and to a twin that was never asked anything must give the same
+    # document: a question that leaves a trace which only shows later (an entry created in a registry) is a modification.
+    # Compared on the custom records only (their order among themselves): the open findings of this property
+    # (lazy spelling, to_gfa2 assigning IDs) touch other lines.
+    if ver == "gfa2":
+        try:
+            twin = gfapy.Gfa(vlevel=v, version=ver)
+            for l in L:
+                twin.add_line(l)
+            for gg in (g, twin):
+                for l in CONTINUATION:
+                    gg.add_line(l)
+            std = set("HSEFGOU#")
+            a = [str(x) for x in g.lines if x.record_type not in std]
+            b = [str(x) for x in twin.lines if x.record_type not in std]
+            if a != b:
+                F.append("future-differs[custom-records]: (%s) after the questions and then adding %r the Gfa writes %r, a twin "
+                         "that was never asked writes %r" % (where, CONTINUATION, a, b))
+        except gfapy.Error:
+            pass
+        except Exception as e:
+            F.append("foreign-exception[%s]: (%s) in continuation" % (e.__class__.__name__, where))
     seen = set(); out = []
     for f in F:
         s = signature(case, f)
